@@ -40,7 +40,7 @@ func allocsOf(fn *ssa.Function, pkg, name string) []*ssa.Alloc {
 	var out []*ssa.Alloc
 	for _, b := range fn.Blocks {
 		for _, in := range b.Instrs {
-			if a, ok := in.(*ssa.Alloc); ok && isRepoNamed(deref(a.Type()), pkg, name) {
+			if a, ok := in.(*ssa.Alloc); ok && isNamed(deref(a.Type()), pkgPathOf(pkg), name) {
 				out = append(out, a)
 			}
 		}
@@ -160,7 +160,7 @@ func ruleKIPropagate(p *Prog, r *Reporter) {
 		for _, b := range f.Blocks {
 			if ret := blockReturn(b); ret != nil {
 				n++
-				if p.D(ret.Results[0]) != "b.container.RootKeyId" && p.D(ret.Results[0]) != f.Params[0].Name()+".container.RootKeyId" {
+				if p.D(retVal(ret, 0)) != "b.container.RootKeyId" && p.D(retVal(ret, 0)) != f.Params[0].Name()+".container.RootKeyId" {
 					ok = false
 				}
 			}
@@ -231,7 +231,7 @@ func ruleKILookup(p *Prog, r *Reporter) {
 			continue
 		}
 		pos := p.instrPos(ret)
-		key, err := ret.Results[0], ret.Results[1]
+		key, err := retVal(ret, 0), retVal(ret, 1)
 		if !isNilConst(err) {
 			// error return
 			if isLoadOfGlobal(err, "biscuit", "ErrNoPublicKeyAvailable") && isNilConst(key) {
@@ -331,7 +331,7 @@ func ruleKIFlow(p *Prog, r *Reporter) {
 			if ret == nil {
 				continue
 			}
-			ev := ret.Results[1]
+			ev := retVal(ret, 1)
 			if ev == ssa.Value(errV) {
 				okErr = true
 			} else if c, ok := ev.(*ssa.Call); ok && isCallTo(&c.Call, "fmt.Errorf") {
@@ -340,7 +340,7 @@ func ruleKIFlow(p *Prog, r *Reporter) {
 					okErr = true
 				}
 			}
-			if !isNilConst(ret.Results[0]) {
+			if !isNilConst(retVal(ret, 0)) {
 				okErr = false
 			}
 		}
@@ -374,7 +374,7 @@ func ruleKIFlow(p *Prog, r *Reporter) {
 				okRej := true
 				for bb := range reachableFrom(rej) {
 					if ret := blockReturn(bb); ret != nil && !reachAvoiding(bb, verify.Block(), nil) {
-						if !isLoadOfGlobal(ret.Results[1], "biscuit", "ErrNoPublicKeyAvailable") {
+						if !isLoadOfGlobal(retVal(ret, 1), "biscuit", "ErrNoPublicKeyAvailable") {
 							okRej = false
 						}
 					}
@@ -392,8 +392,8 @@ func ruleKIFlow(p *Prog, r *Reporter) {
 		okRet := false
 		for _, b := range f.Blocks {
 			if rr := blockReturn(b); rr != nil && len(rr.Results) == 2 {
-				e0, ok0 := rr.Results[0].(*ssa.Extract)
-				e1, ok1 := rr.Results[1].(*ssa.Extract)
+				e0, ok0 := retVal(rr, 0).(*ssa.Extract)
+				e1, ok1 := retVal(rr, 1).(*ssa.Extract)
 				if ok0 && ok1 && e0.Tuple == ssa.Value(ret) && e1.Tuple == ssa.Value(ret) {
 					okRet = true
 				}
